@@ -39,3 +39,19 @@ func TestExAtDeadlineDemo(t *testing.T) {
 		t.Errorf("SET o v EX 9223372036854775807 replied %v, want an invalid-expire-time error", out.toNative())
 	}
 }
+
+// Demonstration (C07/C02): an EXAT time that does not fit 64-bit milliseconds is
+// refused (SET big 1 EXAT 9223372036854775807 replied OK and the key was gone:
+// the time wrapped into the past).
+func TestExAtHugeDemo(t *testing.T) {
+	ts := NewRedisTestClient(t)
+	defer ts.Close()
+	out := ts.ProcessCommand("set", "big", "1", "exat", "9223372036854775807")
+	if !out.isErrorType() {
+		t.Errorf("SET big 1 EXAT 9223372036854775807 replied %v, want an invalid-expire-time error", out.toNative())
+	}
+	out = ts.ProcessCommand("exists", "big")
+	if n, _ := out.toNative().(int64); n != 0 {
+		t.Errorf("the refused SET created the key")
+	}
+}
